@@ -220,6 +220,104 @@ def _sign_fact(g: G, quantity: Rat):
 
 
 # --------------------------------------------------------------------------
+def _divisors_nonzero(rc: RuleCtx, fi, name: str, divisions, counts, facts):
+    """The normal form of a quotient cancels common factors (2PR/(P+R) with P = tp/(tp+fp), R = tp/(tp+fn) *is*
+    2tp/(2tp+fp+fn) as a rational function) - but the code divides by P+R, which is 0 for tp = 0.  Every divisor the code
+    evaluates must be non-zero on the whole domain: proved when (numerator of the divisor) - (a quantity known to be >= 1)
+    has only non-negative terms in the counts; refuted by a small table of counts on which the divisor vanishes."""
+    import itertools
+    from ..seqdom import g_subst
+    res = rc.res
+    added = [k for k in counts if k not in anf.NONNEG_SYMS]
+    anf.NONNEG_SYMS.update(added)
+    try:
+        _divisors_nonzero_(rc, fi, name, divisions, counts, facts)
+    finally:
+        for k in added:
+            anf.NONNEG_SYMS.discard(k)
+
+
+def _divisors_nonzero_(rc: RuleCtx, fi, name: str, divisions, counts, facts):
+    import itertools
+    from ..seqdom import g_subst
+    res = rc.res
+    for guard, d, node in divisions:
+        if d.is_const() is not None and not d.is_zero():
+            continue
+        if set(d.symbols()) - set(counts):
+            raise AnalysisError(f"evaluation.{name}: a divisor mentions something other than the four counts ({_short(d, 80)}) - shape not recognised")
+        num = Rat(dict(d.num))
+        den = Rat(dict(d.den))
+        if not d.is_zero() and den.sub(C(0)).is_nonneg() and any(num.sub(f.mul(den)).is_nonneg() or num.sub(f).is_nonneg() for f in facts) and guard.kind == "true":
+            res.ok("S4", f"evaluation.{name}:divisor", f"the divisor {_short(d, 60)} is >= 1 on the domain (non-empty K and E)")
+            continue
+        witness = None
+        for vals in itertools.product((0, 1, 2), repeat=4):
+            m = {k: C(v) for k, v in zip(counts, vals)}
+            if any((f.subst(m).is_const() or 0) < 1 for f in facts):
+                continue
+            gg = g_subst(guard, m)
+            if gg.kind == "false" or not g_sat(gg):
+                continue
+            try:
+                dv = d.subst(m)
+            except ZeroDivisionError:
+                continue            # an inner division fails first: reported for that division
+            if dv.is_zero():
+                witness = dict(zip(counts, vals))
+                break
+        if witness is not None:
+            res.violation("S4", fi.module, fi.name, node, f"{name} divides by {_short(d, 80)}, which is 0 for the confusion matrix {witness} (K and E non-empty): the score is "
+                          "NaN / a ZeroDivisionError instead of a value in [0, 1]", _short(d, 120), "a divisor that is positive whenever K and E are non-empty",
+                          construct=f"{name} divisor")
+        elif guard.kind == "true" and not d.is_zero():
+            raise AnalysisError(f"INCONCLUSIVE S4 evaluation.{name}: cannot prove the divisor {_short(d, 80)} non-zero on the domain")
+        else:
+            res.ok("S4", f"evaluation.{name}:divisor", f"the divisor {_short(d, 60)} is evaluated only where it is non-zero (no count table with non-empty K and E reaches it at 0)")
+
+
+def _expect_score(rc: RuleCtx, fi, got, want: Rat, what: str, counts, facts):
+    """expect_equal, with one more way for a special-cased path to agree with the formula: a case taken under `E == 0`
+    agrees when (numerator of E) = (numerator of the difference) * q with q >= 1 on the domain - then E == 0 forces the
+    difference to 0 (`if precision + recall == 0: return 0.0`: tp * (2tp + fp + fn) == 0 forces 2tp == 0)."""
+    from ..guards import _unit_conjuncts
+    from .common import judge
+    cases = []
+    added = [k for k in counts if k not in anf.NONNEG_SYMS]
+    anf.NONNEG_SYMS.update(added)
+    under = g_and(*[canon_sign(f, OPS[">"]) for f in facts])          # K and E are not empty
+    try:
+        for g, v in cases_of(got):
+            if not g_sat(g_and(g, under)):
+                continue
+            if isinstance(v, Rat) and judge(v, want)[0] == "differs":
+                diff = v.sub(want)
+                D = Rat(dict(diff.num))
+                all_forced = True
+                for disj in (g.a if g.kind == "or" else (g,)):
+                    if not g_sat(g_and(disj, under)):
+                        continue
+                    forced = False
+                    for x in _unit_conjuncts(g_and(disj, under)):
+                        if x.kind == "sign" and x.b == OPS["=="]:
+                            P = Rat(dict(x.a.num))
+                            try:
+                                q = P.div(D)
+                            except ZeroDivisionError:
+                                continue
+                            if q.den == {(): 1} and any(qq.sub(f).is_nonneg() or qq.mul(C(2)).sub(f).is_nonneg() for f in facts for qq in (q, q.neg())):
+                                forced = True
+                                break
+                    all_forced = all_forced and forced
+                if all_forced:
+                    v = want
+            cases.append((g, v))
+    finally:
+        for k in added:
+            anf.NONNEG_SYMS.discard(k)
+    rc.expect_equal("S4", fi, mk_pw(cases), want, what, under=under)
+
+
 def _scores(rc: RuleCtx):
     res = rc.res
     ev = rc.new_eval()
@@ -230,9 +328,16 @@ def _scores(rc: RuleCtx):
         "f1score": C(2) * tp / (C(2) * tp + fp + fn),
         "mcc": (tp * tn - fp * fn) / anf.f_sqrt((tp + fp) * (tp + fn) * (tn + fp) * (tn + fn)),
     }
+    counts = {"tp": tp, "fp": fp, "fn": fn, "tn": tn}
+    # the domain of the statement: entries are counts, E is not empty (tp + fn >= 1), K is not empty (tp + fp >= 1)
+    facts = [tp + fn, tp + fp]
+    ev.record_divisions = True
     for name, want in refs.items():
+        ev.divisions = []
         fi, out = rc.eval_fn(f"evaluation.{name}", {"cm": cm})
-        rc.expect_equal("S4", fi, out.value(), want, f"{name}([[tp, fp], [fn, tn]])")
+        _expect_score(rc, fi, out.value(), want, f"{name}([[tp, fp], [fn, tn]])", counts, facts)
+        if name != "mcc":        # (MCC is only claimed where its denominator is non-zero)
+            _divisors_nonzero(rc, fi, name, ev.divisions, counts, facts)
     # S5
     ev = rc.new_eval()
     pts, exp = ev.point("points", True), ev.point("expected", True)
